@@ -164,11 +164,6 @@ def _exp(ctx, st, a):
     return sp_un("exp", a)
 
 
-@external("sympy.S.NegativeOne")
-def _neg1(ctx, st):
-    return sym(-1)
-
-
 registry.EXTERNALS["sympy.S"] = I.ModuleRef("sympy.S")
 I.CONSTANTS["sympy.S.NegativeOne"] = None  # filled below
 I.CONSTANTS["sympy.S.Zero"] = None
